@@ -45,6 +45,7 @@ Init ==
     /\ row = <<>>
     /\ IF Mode = "oracle"
        THEN product = Input.product /\ i \in 1..Len(Input.versions) /\ va = <<>>
+       ELSE IF Mode = "frames" THEN product = "OpenSSH" /\ i = 0 /\ va = <<>>
        ELSE product \in {"OpenSSH", "Dropbear SSH", "libssh"} /\ i = 0 /\ va \in McUniverse(product)
 
 \* one row of the comparison matrix
@@ -82,6 +83,17 @@ SinceIsMonotone == Mode = "mc" => \A w, s \in U :
 OpenSSHPatchRule == (Mode = "mc" /\ product = "OpenSSH") => \A t \in Tuples(2) :
     /\ Compare(product, [c |-> t, p |-> <<"none", 0>>], [c |-> t, p |-> <<"p", 1>>]) = 0
     /\ Compare(product, [c |-> t, p |-> <<"p", 1>>], [c |-> t, p |-> <<"p", 2>>]) = -1
+
+\* compatibility ranges ("(gen) compatibility: OpenSSH 7.4-8.8"): the newest first-appeared release and the oldest
+\* last-supported release among the advertised algorithms, by the same numeric order
+Newest(prod, S) == CHOOSE a \in S : \A b \in S : Compare(prod, a, b) >= 0
+Oldest(prod, S) == CHOOSE a \in S : \A b \in S : Compare(prod, a, b) <= 0
+FrameInput == IF Mode = "frames" THEN JsonDeserialize(IOEnv.VERIF_CASES) ELSE <<>>
+SetOf(q) == {q[k] : k \in 1..Len(q)}
+EmitFrames == Mode = "frames" =>
+    PrintT(ToJson([k \in 1..Len(FrameInput) |->
+        [from |-> IF FrameInput[k].since = <<>> THEN <<>> ELSE Newest(FrameInput[k].product, SetOf(FrameInput[k].since)).c,
+         till |-> IF FrameInput[k].till = <<>> THEN <<>> ELSE Oldest(FrameInput[k].product, SetOf(FrameInput[k].till)).c]]))
 
 \* emission of the oracle rows
 Emit == (Mode = "oracle" /\ pc = "done") => PrintT(ToJson([i |-> i, row |-> row]))
